@@ -295,6 +295,10 @@ func enabled(n *node, m *refModel, abs Abs, thorough bool) (out []Op) {
 		}
 		for _, y := range outsiders {
 			out = append(out, Op{K: "add", By: by, T: y})
+			if m.everHad[y] {
+				// a permission change naming an account that holds none any more (it was removed or left)
+				out = append(out, Op{K: "perm", By: by, T: y, P: PermName(Writer)})
+			}
 			if pending[fmt.Sprint(y, true)] {
 				out = append(out, Op{K: "approve", By: by, T: y})
 			}
@@ -309,6 +313,10 @@ func enabled(n *node, m *refModel, abs Abs, thorough bool) (out []Op) {
 					np = Reader
 				}
 				out = append(out, Op{K: "perm", By: by, T: y, P: PermName(np)})
+			}
+			if y != by && (m.perm[y] == Writer || m.perm[y] == Reader) {
+				// a permission change down to no permission at all (a removal spelled as a permission change)
+				out = append(out, Op{K: "perm", By: by, T: y, P: PermName(None)})
 			}
 		}
 		for _, sl := range live {
